@@ -16,30 +16,79 @@ from .. import core
 
 PID = "C03"
 THEOREMS = [
+    "pl_eval_is_linear_interpolation", "pl_eval_zero_outside",
+    "sweep_correct", "sweep_correct_every_real_t", "sweep_is_kth_largest_tent_at_every_real_t",
+    "landscape_value_is_determined", "exact_landscape_correct_every_real_t",
+    "real_reading_extends_rational", "sweep_depths_beyond_zero", "pass_spec", "exact_landscape_correct",
+    "sweep_order_independent", "sweep_shortcut_agrees", "sweep_legacy_correct_when_shortcut_silent",
+    "sweep_legacy_correct_when_shortcut_silent_every_real_t",
+    "sweep_legacy_total", "exact_landscape_never_out_of_fuel", "hook_trace_empty_iff_shortcut_silent",
+    "agree_verdict_certifies_output",
     "sweep_legacy_refuted", "sweep_legacy_refuted_no_input_repeats", "empty_diagram_legacy_refuted",
     "hom_deg_selects", "hom_deg_out_of_range", "trailing_inf_removed", "empty_diagram_no_depths",
 ]
 RULE = ("exact family: bars with integer / half-integer endpoints (scaled by 2^k, k in -20..20, translated), "
         "1-8 bars, classes {single, nested, overlapping, disjoint, touching, equal_births, equal_deaths, repeated, "
         "collision (bars the sweep itself creates collide with input bars), random, scale, trailing_inf, homdeg, "
+        "(thorough: 9-12 bars in 15% of the cases, plus every multiset of <= 3 integer bars in [0,6]) "
         "homdeg_oob, empty, repr (int array / nested list input)}, input order shuffled with probability 1/2; "
+        "tolerance family 'offgrid': random doubles with ties made by copying coordinates, compared within "
+        "2^-40 x largest magnitude; "
         "non-trivial = the selected diagram has >= 2 finite bars of which at least two have intersecting supports "
         "and the property predicate passes; distinct = distinct JSON input")
 TRUSTED_BASE = [
     "Coq 8.16.1 kernel, vm_compute (no native_compute)",
-    "Q/nat/list development, closed under the global context (no axioms)",
+    "Q/nat/list development, closed under the global context (no axioms); the six real-t theorems "
+    "(sweep_correct_every_real_t, sweep_is_kth_largest_tent_at_every_real_t, exact_landscape_correct_every_real_t, "
+    "sweep_legacy_correct_when_shortcut_silent_every_real_t, landscape_value_is_determined, "
+    "real_reading_extends_rational) use the stdlib "
+    "axioms of the classical reals ClassicalDedekindReals.sig_forall_dec and "
+    "FunctionalExtensionality.functional_extensionality_dep",
     "hand-written model Model/SweepM.v of exact.py lines 124-125 and 257-364",
     "harness: generator, float -> exact rational printer, exception -> outcome mapping, verdict parser",
 ]
 ASSUMPTIONS = [
-    "inputs of the tie are dyadic rationals on which every float operation of the sweep ((b+d)/2, (d-b)/2, "
-    "comparisons) is exact in binary64, so implementation and Q model are compared exactly",
+    "inputs of the exact family are dyadic rationals on which every float operation of the sweep ((b+d)/2, "
+    "(d-b)/2, comparisons) is exact in binary64, so implementation and Q model are compared exactly; for the "
+    "off-grid family binary64 rounding of (b+d)/2 and (d-b)/2 is bounded by the stated tolerance, not proved",
     "numpy semantics of list(array), sorted with key [b,-d], list == list on numpy scalars as modelled",
     "an infinite bar that is not the last row of the diagram is outside the property (the code keeps it)",
 ]
-COQ_DEPS = ["Corr/SweepCorr.vo"]
+COQ_DEPS = ["Corr/SweepCorr.vo", "Proofs/SweepCorrP.vo"]
 FID_DUP = "C03-dup-shortcut"
 FID_EMPTY = "C03-empty-diagram"
+
+# ------------------------------------------------------------------------------------ thorough tier: coqchk
+
+def extra_obligations(tier):
+    """thorough tier: re-check the compiled property file and everything it depends on with the standalone
+    checker coqchk; the only axioms it may report are the allow-listed ones of the standard library."""
+    if tier != "thorough":
+        return {"obligations": 0, "discharged": 0, "problems": []}
+    import re
+    import subprocess
+    try:
+        r = subprocess.run(["timeout", "900", "coqchk", "-silent", "-o", "-R", str(core.COQ), "Persim",
+                            "Persim.Properties.C03"], capture_output=True, text=True, cwd=str(core.COQ))
+    except Exception as e:  # noqa
+        return {"obligations": 1, "discharged": 0, "problems": ["coqchk could not be run: %r" % (e,)]}
+    out = r.stdout + r.stderr
+    problems = []
+    if r.returncode != 0:
+        problems.append("coqchk failed: " + out[-600:])
+    m = re.search(r"\* Axioms:(.*?)\n\s*\n\* ", out, re.S)
+    axioms = [a.strip() for a in m.group(1).split("\n") if a.strip()] if m else []
+    if m is None and r.returncode == 0:
+        problems.append("coqchk output not understood")
+    for a in axioms:
+        if a != "<none>" and not core.axiom_allowed(a.replace("Coq.Logic.", "").replace("Coq.Reals.", "")):
+            problems.append("coqchk reports a non-allow-listed axiom: " + a)
+    for key in ("relying on type-in-type", "relying on unsafe (co)fixpoints", "whose positivity is assumed"):
+        mm = re.search(re.escape(key) + r":\s*(\S+)", out)
+        if mm is None or mm.group(1) != "<none>":
+            problems.append("coqchk: %s: %s" % (key, mm.group(1) if mm else "?"))
+    return {"obligations": 1, "discharged": 0 if problems else 1, "problems": problems, "coqchk_axioms": axioms}
+
 
 # ------------------------------------------------------------------------------------ generator
 
@@ -119,14 +168,45 @@ def _class_bars(rng, cls, n):
     return _random_bars(rng, n, span=rng.choice([4, 8, 12]), maxlen=rng.choice([4, 9]))
 
 
+def _offgrid_bars(rng, n):
+    """random doubles (not on a dyadic grid); ties are created by COPYING coordinates, which is exact"""
+    sc = rng.choice([1.0, 1.0, 1e-3, 37.5, 1e6])
+    out = []
+    for _ in range(n):
+        b = rng.uniform(0, 10) * sc
+        out.append([b, b + rng.uniform(0.01, 6) * sc])
+    for _ in range(rng.randint(0, 3)):
+        kind = rng.choice(["eqb", "eqd", "rep", "coll", "touch"])
+        p, q = rng.choice(out), rng.choice(out)
+        if kind == "eqb" and p[0] < q[1]:
+            out.append([p[0], q[1]])
+        elif kind == "eqd" and q[0] < p[1]:
+            out.append([q[0], p[1]])
+        elif kind == "rep":
+            out.append(list(p))
+        elif kind == "coll" and p[0] <= q[0] < p[1] < q[1]:
+            out.append([q[0], p[1]])
+        elif kind == "touch":
+            out.append([p[1], p[1] + rng.uniform(0.01, 3) * sc])
+    return out[:8]
+
+
 CLASSES = ["single", "nested", "overlapping", "disjoint", "touching", "equal_births", "equal_deaths",
            "repeated", "repeated", "collision", "collision", "random", "random", "random", "scale",
-           "trailing_inf", "homdeg", "homdeg_oob", "empty", "repr"]
+           "trailing_inf", "homdeg", "homdeg_oob", "empty", "repr", "offgrid", "offgrid"]
 
 
-def _one_case(rng, cls=None):
+def _one_case(rng, cls=None, big=False):
     cls = cls or rng.choice(CLASSES)
     n = rng.randint(1, 8) if rng.random() < 0.75 else rng.randint(2, 5)
+    if big and rng.random() < 0.15:
+        n = rng.randint(9, 12)
+    if cls == "offgrid":
+        bars = _offgrid_bars(rng, min(n, 6))
+        rng.shuffle(bars)
+        if rng.random() < 0.2:
+            bars.append([rng.uniform(0, 1), "inf"])
+        return {"cls": cls, "dgms": [bars], "hom_deg": 0, "repr": "float", "tol": True}
     base = cls if cls in ("single", "nested", "overlapping", "disjoint", "touching", "equal_births",
                           "equal_deaths", "repeated", "collision") else rng.choice(
         ["random", "random", "repeated", "collision", "overlapping", "equal_births", "equal_deaths", "touching"])
@@ -166,11 +246,11 @@ def _one_case(rng, cls=None):
 
 
 def generate(rng, tier):
-    n_cases = 1500 if tier == "quick" else 40000
-    cases = [_one_case(rng) for _ in range(n_cases)]
+    n_cases = 1500 if tier == "quick" else 60000
+    cases = [_one_case(rng, big=(tier != "quick")) for _ in range(n_cases)]
     if tier == "thorough":
-        # bounded-exhaustive: every multiset of <= 3 bars on the integer grid 0..4 (in sorted order and reversed)
-        grid = [[float(b), float(d)] for b in range(0, 5) for d in range(b + 1, 6)]
+        # bounded-exhaustive: every multiset of <= 3 bars on the integer grid 0..6 (in sorted order and reversed)
+        grid = [[float(b), float(d)] for b in range(0, 6) for d in range(b + 1, 7)]
         import itertools
         for m in (1, 2, 3):
             for comb in itertools.combinations_with_replacement(grid, m):
@@ -187,15 +267,11 @@ def search_generate(rng, n):
 def corpus():
     """Refutation witnesses of Properties/C03.v, the suite's examples, minimised failures of corpus/C03."""
     cs = [
-        {"cls": "witness", "dgms": [[[1.0, 5.0], [1.0, 5.0], [3.0, 6.0]]], "hom_deg": 0, "repr": "float"},
-        {"cls": "witness", "dgms": [[[6.0, 11.0], [5.0, 7.0], [7.0, 10.0], [6.0, 7.0]]], "hom_deg": 0, "repr": "float"},
         {"cls": "witness", "dgms": [[[1, 5], [1, 5], [3, 6]]], "hom_deg": 0, "repr": "int"},
         {"cls": "suite", "dgms": [[[1.0, 5.0], [2.0, 8.0], [3.0, 4.0], [5.0, 9.0], [6.0, 7.0]]], "hom_deg": 0, "repr": "float"},
         {"cls": "suite", "dgms": [[[0.0, 3.0], [1.0, 4.0]], [[1.0, 4.0]]], "hom_deg": 0, "repr": "float"},
         {"cls": "suite", "dgms": [[[0.5, 7.0], [3.0, 5.0], [4.125, 6.5]], [[1.0, 4.0]]], "hom_deg": 1, "repr": "float"},
-        {"cls": "witness", "dgms": [[]], "hom_deg": 0, "repr": "float"},
         {"cls": "witness", "dgms": [[[0.0, "inf"]]], "hom_deg": 0, "repr": "float"},
-        {"cls": "witness", "dgms": [[[1.0, 5.0], [1.0, 5.0], [1.0, 5.0], [3.0, 6.0]]], "hom_deg": 0, "repr": "float"},
     ]
     d = core.VERIF / "corpus" / PID
     if d.is_dir():
@@ -205,7 +281,7 @@ def corpus():
                 c = c.get("case", c)
                 if "dgms" in c:
                     c = {k: c[k] for k in ("dgms", "hom_deg", "repr") if k in c}
-                    c.setdefault("hom_deg", 0); c.setdefault("repr", "float"); c["cls"] = "corpus"
+                    c.setdefault("hom_deg", 0); c.setdefault("repr", "float"); c["cls"] = "witness"
                     cs.append(c)
             except Exception:
                 pass
@@ -218,10 +294,24 @@ def _f(x):
     return float("inf") if x == "inf" else float(x)
 
 
+class _Timeout(Exception):
+    pass
+
+
+def _alarm(signum, frame):
+    raise _Timeout("compute_landscape did not return within %s s" % CASE_TIMEOUT_S)
+
+
+CASE_TIMEOUT_S = 5      # the sweep on <= 9 bars takes well under a millisecond; a mutated loop may not terminate
+
+
 def impl_run(cases):
     import numpy as np
     from persim.landscapes import PersLandscapeExact
+    import signal
     import sys
+    signal.signal(signal.SIGALRM, _alarm)
+    n_timeouts = 0
     mod = sys.modules["persim.landscapes.exact"]
     trace = getattr(mod, "_verif_trace", None)
     outs = []
@@ -241,13 +331,20 @@ def impl_run(cases):
         if trace is not None:
             del trace[:]
         try:
-            P = PersLandscapeExact(dgms=dg, hom_deg=c["hom_deg"])
+            if n_timeouts >= 20:
+                raise _Timeout("not run: 20 earlier cases of this batch did not terminate")
+            signal.setitimer(signal.ITIMER_REAL, CASE_TIMEOUT_S if n_timeouts == 0 else 0.25)
+            try:
+                P = PersLandscapeExact(dgms=dg, hom_deg=c["hom_deg"])
+            finally:
+                signal.setitimer(signal.ITIMER_REAL, 0)
             cps = [[[float(x), float(y)] for x, y in depth] for depth in P.critical_pairs]
             bad = any(not math.isfinite(v) for depth in cps for p in depth for v in p)
             o = {"cps": cps if not bad else [[[repr(x), repr(y)] for x, y in depth] for depth in cps],
                  "nonfinite": bad, "max_depth": int(P.max_depth)}
-        except Exception as e:  # noqa
-            o = {"error": type(e).__name__, "msg": str(e)[:200]}
+        except (Exception, _Timeout) as e:  # noqa
+            n_timeouts += isinstance(e, _Timeout)
+            o = {"error": type(e).__name__.lstrip("_"), "msg": str(e)[:200]}
         o["hook"] = trace is not None
         o["trace"] = [list(t) for t in trace] if trace is not None else None
         outs.append(o)
@@ -274,7 +371,13 @@ def _kth_tents(bars_i, t):
     return v
 
 
+def _not_run(o):
+    return o.get("error") == "Timeout" and str(o.get("msg", "")).startswith("not run")
+
+
 def predicate(c, o):
+    if _not_run(o):
+        return True, ""        # not evaluated (circuit breaker after 20 non-terminating cases, each reported)
     bars, exc = _selected(c)
     if exc == "IndexError":
         if o.get("error") == "IndexError":
@@ -291,6 +394,8 @@ def predicate(c, o):
     cps = [[(Fraction(x), Fraction(y)) for x, y in depth] for depth in o["cps"]]
     if o.get("max_depth") is not None and o["max_depth"] != len(cps):
         return False, "max_depth: %r != number of depths %d" % (o["max_depth"], len(cps))
+    if c.get("tol"):
+        return _predicate_tol(bars, cps)
     # common denominator -> integers (x4 so that midpoints of midpoints stay integral)
     den = 1
     for b, d in bars:
@@ -352,9 +457,55 @@ def predicate(c, o):
     return True, ""
 
 
+def _tol_of(bars):
+    """absolute tolerance of the off-grid family: 2^-40 times the largest coordinate magnitude (>= 1 ulp-scale
+    slack for the one rounding in (b+d)/2 and (d-b)/2; eight orders of magnitude below any bar length generated)"""
+    m = max([abs(v) for b, d in bars for v in (b, d)] + [Fraction(1, 2 ** 20)])
+    return m / 2 ** 40
+
+
+def _predicate_tol(bars, cps):
+    """the definition against the implementation's output for off-grid doubles, exact Fractions, within tol"""
+    tol = _tol_of(bars)
+    n = len(bars)
+    for k, depth in enumerate(cps, 1):
+        xs = [x for x, _ in depth]
+        if any(x1 < x0 for x0, x1 in zip(xs, xs[1:])):
+            return False, "order: abscissae of depth %d not ordered: %s" % (k, [float(x) for x in xs])
+    ts = set(x for depth in cps for x, _ in depth)
+    ts.update(v for b, d in bars for v in (b, d))
+    ts.update((b + d) / 2 for b, _ in bars for _, d in bars)
+    ts = sorted(ts)
+    span = ts[-1] - ts[0] + 1 if ts else 1
+    pts = sorted(set(ts + [(u + v) / 2 for u, v in zip(ts, ts[1:])] + ([ts[0] - span, ts[-1] + span] if ts else [Fraction(0)])))
+    tents = {t: sorted((max(0, min(t - b, d - t)) for b, d in bars), reverse=True) for t in pts}
+    for k in range(1, max(n, len(cps)) + 2):
+        depth = cps[k - 1] if k - 1 < len(cps) else []
+        for x, y in depth:
+            want = tents[x][k - 1] if k <= n else 0
+            if abs(y - want) > tol:
+                return False, ("definition-mismatch: depth %d critical point (%s, %s) but k-th largest tent is %s (tol %.3g)"
+                               % (k, float(x), float(y), float(want), float(tol)))
+        for t in pts:
+            want = tents[t][k - 1] if k <= n else 0
+            got = 0
+            if depth and depth[0][0] <= t <= depth[-1][0]:
+                got = None
+                for (x0, y0), (x1, y1) in zip(depth, depth[1:]):
+                    if x0 <= t <= x1 and x0 < x1:
+                        got = y0 + (y1 - y0) * (t - x0) / (x1 - x0)
+                        break
+                if got is None:
+                    continue
+            if abs(got - want) > 4 * tol:
+                return False, ("definition-mismatch: depth %d at t=%s: interpolated value %s, k-th largest tent %s (tol %.3g)"
+                               % (k, float(t), float(got), float(want), float(4 * tol)))
+    return True, ""
+
+
 def nontrivial(c, o):
     bars, exc = _selected(c)
-    if exc or not bars or len(bars) < 2:
+    if exc or not bars or len(bars) < 2 or "error" in o:
         return False
     return any(p is not q and max(p[0], q[0]) <= min(p[1], q[1]) for p in bars for q in bars)
 
@@ -390,21 +541,84 @@ def _key(c):
     return core.default_canonical(c)
 
 
+TWIN_LIMIT = 2500      # the in-Coq spec twin is evaluated on the first TWIN_LIMIT eligible cases of a run
+
+
+def _terms(cases, outs):
+    """(model terms, their case indices, twin terms, their case indices, early verdicts)"""
+    early = {}
+    terms, idx, tw_terms, tw_idx = [], [], [], []
+    for i, (c, o) in enumerate(zip(cases, outs)):
+        oc = _coq_outcome(o)
+        if _not_run(o):
+            early[i] = "skip:not run (earlier cases of the batch did not terminate)"
+            continue
+        if oc is None:
+            early[i] = "disagree:implementation outcome not expressible (%s)" % (o.get("error") or "inf/nan")
+            continue
+        tr = "None"
+        if o.get("hook") and o.get("trace") is not None:
+            if all(t and t[0] == "dup_shortcut" for t in o["trace"]):
+                tr = "(Some %s)" % core.coq_list(["%d%%nat" % int(t[1]) for t in o["trace"]])
+            else:
+                tr = "(Some [0%nat])"       # malformed trace entry: can never equal the model's trace
+        dg = core.coq_list([_coq_dgm(d) for d in c["dgms"]])
+        if c.get("tol"):
+            bars, exc = _selected(c)
+            tol = _tol_of(bars) if bars else Fraction(1, 2 ** 40)
+            terms.append("check_case_tol %s %s %d%%nat (%s) %s" % (core.coq_Q(tol), dg, c["hom_deg"], oc, tr))
+        else:
+            terms.append("check_case %s %d%%nat (%s) %s" % (dg, c["hom_deg"], oc, tr))
+        idx.append(i)
+        # the definition evaluated inside Coq (Corr/SweepCorr.v: spec_twin) on the implementation's output
+        bars, exc = _selected(c)
+        if (exc or "error" in o or o.get("nonfinite") or any(d <= b for b, d in bars) or c.get("tol")
+                or len(tw_idx) >= TWIN_LIMIT):
+            continue
+        tw_terms.append("spec_twin %s (%s)" % (
+            core.coq_list(["(%s, %s)" % (core.coq_Q(b), core.coq_Q(d)) for b, d in bars]), oc[3:]))
+        tw_idx.append(i)
+    return terms, idx, tw_terms, tw_idx, early
+
+
+CHUNK, TW_CHUNK = 100, 60
+
+
+def _chunks(n, size):
+    return [list(range(a, min(n, a + size))) for a in range(0, n, size)]
+
+
 def coq_jobs(cases, outs):
-    return []        # compiled by coq_judge through core.eval_cases
+    terms, idx, tw_terms, tw_idx, _ = _terms(cases, outs)
+    jobs = []
+    for tag, ts, size in (("ev", terms, CHUNK), ("tw", tw_terms, TW_CHUNK)):
+        for k, ch in enumerate(_chunks(len(ts), size)):
+            jobs.append(("%s_%03d" % (tag, k),
+                         HEADER + "\nEval vm_compute in (%s).\n" % core.coq_list(["(%s)" % ts[a] for a in ch], sep=";\n ")))
+    return jobs
+
+
+def _collect(results, tag, n, size):
+    toks = ["ERROR"] * n
+    for k, ch in enumerate(_chunks(n, size)):
+        r = results.get("%s_%03d" % (tag, k))
+        if r is None or not r.ok:
+            if r is not None:
+                core.log("[%s] coq job %s_%03d failed: %s" % (PID, tag, k, (r.err or r.out)[-600:]))
+            continue
+        lists = r.eval_lists()
+        if len(lists) == 1 and len(lists[0]) == len(ch):
+            for a, t in zip(ch, lists[0]):
+                toks[a] = t
+    return toks
 
 
 def coq_judge(cases, outs, results):
-    verdicts = [None] * len(cases)
-    terms, idx = [], []
-    for i, (c, o) in enumerate(zip(cases, outs)):
-        oc = _coq_outcome(o)
-        if oc is None:
-            verdicts[i] = "disagree:implementation outcome not expressible (%s)" % (o.get("error") or "inf/nan")
-            continue
-        terms.append("check_case %s %d%%nat (%s)" % (core.coq_list([_coq_dgm(d) for d in c["dgms"]]), c["hom_deg"], oc))
-        idx.append(i)
-    toks, _ = core.eval_cases(PID, HEADER, terms, chunk=100)
+    terms, idx, tw_terms, tw_idx, early = _terms(cases, outs)
+    toks = _collect(results, "ev", len(terms), CHUNK)
+    tw_toks = _collect(results, "tw", len(tw_terms), TW_CHUNK)
+    twin = {i: t for i, t in zip(tw_idx, tw_toks)}
+    verdicts = [early.get(i) for i in range(len(cases))]
     for i, t in zip(idx, toks):
         if t == "VAgree":
             v = "agree"
@@ -414,8 +628,19 @@ def coq_judge(cases, outs, results):
             v = "legacy:" + FID_EMPTY
         elif t == "VDisagree":
             v = "disagree:critical_pairs differ from both the shortcut-free and the Legacy model"
+        elif t == "VTraceMismatch":
+            v = "disagree:hook trace %s differs from the Legacy model's shortcut_trace" % json.dumps(outs[i].get("trace"))
         else:
             v = "disagree:model run failed (%s)" % t
+        if i in twin and not v.startswith("disagree"):
+            try:
+                okp = predicate(cases[i], outs[i])[0]
+            except Exception:
+                okp = False
+            if twin[i] not in ("true", "false"):
+                v = "disagree:spec twin did not evaluate (%s)" % twin[i]
+            elif (twin[i] == "true") != okp:
+                v = "disagree:Coq spec twin says %s, Python predicate says %s" % (twin[i], okp)
         verdicts[i] = v
         _verdicts[_key(cases[i])] = v
     return verdicts
@@ -477,13 +702,11 @@ def reference_sweep(bars, shortcut=True):
 def finding_of(c, o, detail):
     """A predicate failure is an instance of C03-dup-shortcut only if (i) the repeated-bar shortcut fired on
     this input (guarded hook trace; recomputed by the reference when the hook is absent) and (ii) the
-    implementation's critical_pairs equal the Legacy model's.  C03-empty-diagram: the selected diagram has no
-    rows and the code raised IndexError."""
+    implementation's critical_pairs equal the Legacy model's.  Nothing else is ever attributed: the IndexError
+    on an empty diagram (C03-empty-diagram, repaired in /repo) is a VIOLATION if it returns."""
     bars, exc = _selected(c)
     if exc:
         return None
-    if o.get("error") == "IndexError" and c["hom_deg"] < len(c["dgms"]) and len(c["dgms"][c["hom_deg"]]) == 0:
-        return FID_EMPTY
     if "error" in o or o.get("nonfinite") or not detail.startswith("definition-mismatch"):
         return None
     ref, ref_fired = reference_sweep(bars, shortcut=True)
@@ -495,7 +718,10 @@ def finding_of(c, o, detail):
         legacy = (v == "legacy:" + FID_DUP)
     else:
         impl = [[[Fraction(x), Fraction(y)] for x, y in depth] for depth in o["cps"]]
-        legacy = (impl == ref)
+        tol = _tol_of(bars) if c.get("tol") else 0
+        legacy = (len(impl) == len(ref) and all(len(a) == len(b) for a, b in zip(impl, ref)) and
+                  all(abs(p[0] - q[0]) <= tol and abs(p[1] - q[1]) <= tol
+                      for a, b in zip(impl, ref) for p, q in zip(a, b)))
     return FID_DUP if legacy else None
 
 
